@@ -296,7 +296,68 @@ def plan_gc(run, prop, tier):
     return acc
 
 
-PLANS = {p: plan_gc for p in ("C01", "C02", "C03", "C04", "C05", "C06")}
+def cfg_world(cap, labels=("a",), vals=("x",), nh=2, props=("FreshIds", "OnlyReadsShrink", "CopyIsExact", "Independent", "SliceExact")):
+    s = (f"SPECIFICATION WSpec\nVIEW wview\nCONSTANTS Cap = {cap} Labels = {tla_set(labels)} Vals = {tla_set(vals)} NHandles = {nh} "
+         "MaxN = 1 MaxGroups = 14 MaxGroupSize = 16\nINVARIANT WTypeOK\nINVARIANT IssuedBelowPos\n")
+    for p_ in props:
+        s += f"PROPERTY {p_}\n"
+    return s + "CHECK_DEADLOCK FALSE\n"
+
+
+def e1_world(run, acc, tier):
+    r = vlib.model_check(run, "World", cfg_world(2))
+    acc.add_e1("World[2 ids, 2 handles: 5 mutators + clone + save/load + slice]", r)
+    need = {"WClone", "WReload", "WSlice", "WNextId", "WData"}
+    missing = [a for a in need if r["actions"].get(a, (0, 0))[1] == 0]
+    if missing:
+        raise ToolError(f"vacuity: World actions never taken: {missing}")
+
+
+def twin_plan(tier, s):
+    if tier == "quick":
+        return [dict(profile="twin", n=2, cap=24, steps=2500, seed=s * 100 + 11, window=10),
+                dict(profile="twin", n=16, cap=256, steps=2000, seed=s * 100 + 12, window=30),
+                dict(profile="twin", n=1, cap=12, steps=1500, seed=s * 100 + 13, window=8)]
+    return [dict(profile="twin", n=n, cap=cap, steps=6000, seed=s * 1000 + 50 + i, window=w)
+            for i, (n, cap, w) in enumerate([(1, 12, 8), (2, 24, 10), (2, 64, 24), (3, 32, 12), (4, 40, 16), (8, 64, 20), (16, 256, 40), (16, 32, 12)])]
+
+
+def plan_c05(run, prop, tier):
+    acc = plan_gc(run, prop, tier)
+    e1_world(run, acc, tier)
+    # clones in the product: the allocator position and the issued ids must survive clone()
+    e2_product(run, acc, "A3", [(2, 4, 0), (1, 3, 1)], extra_ops=("clone",))
+    e3_drive(run, acc, twin_plan(tier, vlib.seed()), label="E3 twins")
+    return acc
+
+
+def plan_twin(run, prop, tier):
+    """C08 (save+load) and C10 (clone): the copy replaces the object inside the product exploration (so every
+    continuation the exploration knows is applied to a copy), mismatching paths are re-run side by side
+    (original and copy, same calls) and judged by the mirror lens; E3 does the same on long random histories."""
+    acc = Acc()
+    op = "clone" if prop == "C10" else "reload"
+    e1_world(run, acc, tier)
+    obs = ("indep",) if prop == "C10" else ()
+    e2_product(run, acc, "A3", [(2, 3, 1), (1, 4, 0), (16, 64, 2)], extra_ops=(op,), observers=obs)
+    e2_product(run, acc, "C2", [(2, 2, 1), (4, 9, 0)], extra_ops=(op,), observers=obs)
+    e2_product(run, acc, "F4a", [(1, 4, 1)], extra_ops=(op,), observers=obs)
+    e2_product(run, acc, "F5", [(1, 5, 0)], extra_ops=(op,), observers=obs)
+    if tier == "thorough":
+        e2_product(run, acc, "B3", [(1, 3, 1)], extra_ops=(op,), observers=obs)
+        e2_product(run, acc, "D3", [(1, 3, 2)], extra_ops=(op,), observers=obs)
+        e2_product(run, acc, "F4b", [(2, 4, 0)], extra_ops=(op,), observers=obs)
+    for r in acc.e2:
+        if r["ops"].get(op, 0) == 0:
+            raise ToolError(f"vacuity: no {op} transition executed")
+    e3_drive(run, acc, twin_plan(tier, vlib.seed()), label="E3 twins")
+    return acc
+
+
+PLANS = {p: plan_gc for p in ("C01", "C02", "C03", "C04", "C06")}
+PLANS["C05"] = plan_c05
+PLANS["C08"] = plan_twin
+PLANS["C10"] = plan_twin
 
 LEVEL = {p: "model_checking" for p in PLANS}
 
